@@ -327,6 +327,11 @@ Definition plan_create (cf : cfg) (st : estatus) (ts : list trial) (sug : option
   | None => ([(WSugCreate requests, Stop)], st)
   | Some s =>
       if s_is (s_st s) SFailed then ([], with_conds st (emark_verdict (es_conds st) EFailed RFailed))
+      else if s_is (s_st s) SSucceeded && match c_resume cf with FromVolume => true | _ => false end then
+        (* a Succeeded suggestion of a running experiment is left over from a cleanup that raced with the restart: restart it
+           (repair of F18); the assignments are requested by a later reconcile *)
+        ((if s_restarting (s_st s) then []
+          else [(WSugStatus (s_with_conds (s_st s) (smark_running (ss_conds (s_st s)) CFalse RSugRestart)) (s_rv s), Stop)]), st)
       else
         let names := map t_name ts in
         let assignments := if current <? Z.of_nat (length (ss_names (s_st s)))
